@@ -34,7 +34,10 @@
 (*    InvSystemExact  System met <=> no false clause, in EVERY state       *)
 (*    InvGroups       which equation group refuses which clause            *)
 (*    InvPerturbOne   Perturb(cl) falsifies cl and only cl, clearly        *)
+(*    InvWild         Wild states are outside the quantifier               *)
 (*    InvShape        nets and configurations stay well formed             *)
+(* Legal_mc_coded_*.cfg must FAIL: they transcribe Model.fix as it is      *)
+(* coded today (FIXMODEL) and TLC exhibits the defect on the model.        *)
 (* With EMIT = TRUE (Legal_gen_*.cfg) the same machine prints one case per *)
 (* netlist: the netlist and every in-quantifier configuration around it    *)
 (* (behaviour generation).  LegalTrace.tla re-uses Clauses/System to judge *)
@@ -67,7 +70,7 @@ CONSTANTS DW, DH,        \* die (lattice units); its origin is (0,0) as in FRAME
           Slacks,        \* soft modules: area of the given rectangles minus the required area
           MaxMods, MaxBr, MaxRects,
           Deltas,        \* translations <<dx,dy>> of a whole module
-          Slides,        \* translations <<dx,dy>> of a single branch
+          Slides,        \* translations <<dx,dy>> of a single branch, or of the trunk alone
           EdgeDs,        \* displacements of a single edge
           CHAIN,         \* TRUE: Perturb/Wild also start from a moved (legal) configuration
           WILD,          \* TRUE: explore the multi-violation neighbours too
